@@ -219,6 +219,28 @@ func (rt *runtime) panicRangeError(argumentList ...interface{}) *exception {
 	}
 }
 
+// errorText reads a data property of a thrown Error instance as a string
+// (undefined: the default); it never runs script code.
+func errorText(obj *object, name, undefinedDefault string) string {
+	for o := obj; o != nil; o = o.prototype {
+		if prop := o.getOwnProperty(name); prop != nil {
+			if value, ok := prop.value.(Value); ok && !value.IsObject() {
+				if value.IsUndefined() {
+					return undefinedDefault
+				}
+				return value.string()
+			}
+			break
+		}
+	}
+	if name == "name" {
+		if vl, ok := obj.value.(ottoError); ok {
+			return vl.name
+		}
+	}
+	return undefinedDefault
+}
+
 func catchPanic(function func()) (err error) {
 	defer func() {
 		if caught := recover(); caught != nil {
@@ -237,8 +259,11 @@ func catchPanic(function func()) (err error) {
 				err = &Error{caught}
 				return
 			case Value:
-				if vl := caught.object(); vl != nil {
-					if vl, ok := vl.value.(ottoError); ok {
+				if obj := caught.object(); obj != nil {
+					if vl, ok := obj.value.(ottoError); ok {
+						// The text is 'name: message' of the thrown value as it is now (15.11.4.4),
+						// not as it was when the Error instance was created.
+						vl.name, vl.message = errorText(obj, "name", classErrorName), errorText(obj, "message", "")
 						err = &Error{vl}
 						return
 					}
